@@ -132,12 +132,33 @@ Theorem C14_feret_min_lower_bound : forall S l wn wd,
 Proof. exact feret_lower_sound. Qed.
 Print Assumptions C14_feret_min_lower_bound.
 
+(* Full.  The antipodal sweep as written never exhausts the model's iteration bound, for any vertex
+   list (each pass advances the antipode or the vertex; 2n passes at most). *)
+Theorem C14_sweep_terminates : forall h, sweep h <> None.
+Proof. exact sweep_terminates. Qed.
+Print Assumptions C14_sweep_terminates.
+
+(* Full.  The advance test of the sweep: the two distance2_to_line values share their denominator,
+   so their exact rational comparison is the integer comparison the model performs.  (The code
+   compares the correctly rounded doubles of these rationals; rounding is monotone, so the two
+   decisions can only differ when dc > dn round to the same double, which needs squared cross
+   products above 2^53, i.e. diameters above 9 741 - modelled, not verified.) *)
+Theorem C14_sweep_advance_test_exact : forall n1 n2 den : Z, (0 < den)%Z ->
+  ((inject_Z n1 / inject_Z den <= inject_Z n2 / inject_Z den)%Q <-> (n1 <= n2)%Z).
+Proof. exact advance_test_exact. Qed.
+Print Assumptions C14_sweep_advance_test_exact.
+
 (* Partial (calipers = brute force).  Proved about the executable model of the antipodal sweep, for
-   every vertex list: the sweep only records pairs of valid hull indices, so the maximum it
-   reports never exceeds the largest pairwise distance.  Missing: the converse (a farthest pair is
-   always among the recorded antipodal pairs) and the equality of the minimum construction with the
-   narrowest edge strip.  The model carries the brute-force values next to the sweep's, so any
-   disagreement on a generated hull is a concrete refutation; none occurred. *)
+   every vertex list: it terminates (above), it only records pairs of valid, distinct hull indices,
+   and so the maximum it reports never exceeds the largest pairwise distance.  Missing, by name:
+   diameter_is_antipodal (a farthest pair of a convex polygon admits parallel supporting lines),
+   sweep_antipodal_complete (for a strictly convex cycle in either orientation the recorded pairs
+   contain every antipodal vertex pair), and width_at_antipodal_edge (the narrowest edge strip is
+   found at a vertex having both end points of that edge as antipodes) - the rotating-calipers
+   invariant.  Instead, on every run the model's maximum and minimum are compared with brute force
+   on the same vertex list (any disagreement is reported as a refutation; none in 30 000+ calls),
+   and the implementation's values are certified against the object's full pixel set by the
+   verified checkers max_d2 / feret_min_ok / feret_lower_ok. *)
 Theorem C14_calipers_eq_bruteforce_partial : forall h mx mn,
   sweep h = Some (mx, mn) -> (mx <= max_d2 h)%Z.
 Proof. exact sweep_max_sound. Qed.
